@@ -4,6 +4,7 @@ from __future__ import annotations
 from spverif.core.util import attempt, exc_sig, pool_uint, rand_uint
 from spverif.ref import ccsds as R
 
+SCRIBBLE = True
 ID = "C01"
 LEVEL = "exploration"
 SHARDS = {"quick": 1, "thorough": 16}
@@ -217,6 +218,23 @@ def k_sp_pack(ctx, shf, sec, data, apid, count, version):
         # secondary header supplied but flag clear: the packer leaves it out
         pass
     ctx.check("sp.pack", bytes(p) == want, "octets", "", case, expected=want, observed=p)
+    pkt = sp.SpacePacket(h, sec_b, data_b)
+    ctx.check("sp.views", pkt.apid == apid and pkt.seq_count == count and bool(pkt.sec_header_flag) == bool(shf), "accessors", "", case)
+    # equality: the same parts compare equal; a packet that differs in one header bit, in the secondary header or in the
+    # user data does not; comparison with objects of other types is recorded as informational only
+    twin = sp.SpacePacket(sp.SpacePacketHeader.unpack(bytes(p)), sec_b, data_b)
+    ok, e = attempt(lambda: (pkt == twin) and (twin == pkt))
+    ctx.check("sp.eq", ok and e is True, "equal_parts_compare_unequal", "", case, observed=repr(e))
+    others = [sp.SpacePacket(sp.SpacePacketHeader(sp.PacketType.TM, apid ^ 1, count, length, bool(shf), sp.SequenceFlags.UNSEGMENTED, version), sec_b, data_b),
+              sp.SpacePacket(sp.SpacePacketHeader(sp.PacketType.TM, apid, count ^ 0x2000, length, bool(shf), sp.SequenceFlags.UNSEGMENTED, version), sec_b, data_b),
+              sp.SpacePacket(h, (sec_b or b"") + b"\x00", data_b), sp.SpacePacket(h, sec_b, (data_b or b"") + b"\x01")]
+    for j, o in enumerate(others):
+        ok, e = attempt(lambda: (pkt == o) or (o == pkt))
+        ctx.check("sp.eq", ok and e is False, "different_packets_compare_equal", ("apid", "count", "sec_header", "user_data")[j], case, observed=repr(e))
+    for a, foreign in ((pkt, bytes(p)), (h, bytes(p)[:6]), (h.packet_id, h.packet_id.raw()), (h.packet_seq_control, h.packet_seq_control.raw()), (h, None)):
+        ok, e = attempt(lambda: a == foreign)
+        if not (ok and e is False):      # not stated by the property: reported, never a violation
+            ctx.note(f"{type(a).__name__} == <{type(foreign).__name__}> -> {e!r}")
 
 
 KINDS = {"pack": k_pack, "unpack": k_unpack, "refuse": k_refuse, "words": k_words, "sp_pack": k_sp_pack}
@@ -243,6 +261,8 @@ def _from48(v):
 
 
 def run(ctx):
+    from spverif.san import scribble
+    scribble.install()
     r = ctx.rng
     # 1. exhaustive over each 16-bit word, both directions, other words random
     for word in range(3):
@@ -311,6 +331,7 @@ def run(ctx):
 
 
 def conclude(ctx):
+    ctx.require(ctx.extra.get("hostile_caller_scribbled_pack_results", 0) > 0, "hostile-caller sanitizer scribbled no pack() result")
     for t in ("bit_seen_1_pack", "bit_seen_0_pack", "bit_seen_1_unpack", "bit_seen_0_unpack"):
         ctx.require(len(ctx.tables.get(t, {})) == 48, f"bit toggle table {t} incomplete")
     for m in ("hdr.pack", "hdr.unpack", "hdr.roundtrip", "hdr.refusal", "pid.from_raw", "psc.from_raw", "sp.pack",
